@@ -31,12 +31,13 @@ inductive Arr (F : Type) where
 
 /-- The untyped tree.  Left operands are arbitrary nodes (as in `BinaryExprNode{left, right Node}`),
     right operands are literals (all the grammar allows).  A sub-query `from n where q [skip k]
-    [limit m]` is inlined in the set function that owns it. -/
+    [sort by f₁ [asc|desc], …] [skip k] [limit m]` is inlined in the set function that owns it
+    (`sort`: the `SortFieldNode`s, `true` = ascending). -/
 inductive U (F : Type) where
   | sym (n : String)                                        -- UntypedSymbolNode
   | setFn (fn : SetFn) (n : String)                         -- SetFunctionNode{fn, UntypedSymbolNode}
-  | setFnSub (fn : SetFn) (n : String) (q : U F) (skip limit : Option Int)
-                                                            -- SetFunctionNode{fn, UntypedSubQueryNode{n, untypedQueryNode{q, skip, limit}}}
+  | setFnSub (fn : SetFn) (n : String) (q : U F) (sort : List (String × Bool)) (skip limit : Option Int)
+                                                            -- SetFunctionNode{fn, UntypedSubQueryNode{n, untypedQueryNode{q, sortBy, skip, limit}}}
   | boolC (b : Bool)                                        -- BoolConstNode
   | cmp (op : Op) (l : U F) (r : Lit F)                     -- BinaryExprNode
   | inArr (l : U F) (arr : Arr F)                           -- InArrayExprNode
@@ -62,9 +63,11 @@ inductive TNode (F : Type) where
   | i2f (w : TNode F)                                       -- Int64ToFloat64Node
   | upper (e : TNode F)                                     -- StringFuncNode{toUpper}
   | count (n : String)                                      -- CountSetExprNode{query: nil}
-  | countQ (n : String) (q : TNode F) (skip limit : Option Int)
+  | countQ (n : String) (q : TNode F) (sort : List (String × NodeType × Bool)) (skip limit : Option Int)
+                                                            -- CountSetExprNode{query: queryNode{q, SortBy (typed symbol
+                                                            --   class and direction per field), skip, limit}}
   | isEmpty (n : String)                                    -- IsEmptySetExprNode
-  | isEmptyQ (n : String) (q : TNode F) (skip limit : Option Int)
+  | isEmptyQ (n : String) (q : TNode F) (sort : List (String × NodeType × Bool)) (skip limit : Option Int)
   | setFn (fn : SetFn) (s : TNode F)                        -- SetFunctionNode after TypeTransform (allOf/anyOf)
   | not (e : TNode F) | and (l r : TNode F) | or (l r : TNode F)
   | binBool (op : Op) (l r : TNode F)
@@ -143,6 +146,23 @@ def isConst : TNode F → Bool
   | not e => isConst e
   | _ => false
 
+/-- the typed sort fields of a sub-query: the class of the typed symbol node, then the direction -/
+def sortShape (so : List (String × NodeType × Bool)) : String :=
+  String.join (so.map fun f =>
+    (match f.2.1 with
+     | .str => "StrSym:" | .int => "IntSym:" | .float => "FloatSym:" | .time => "TimeSym:" | .bool => "BoolSym:"
+     | _ => "AnySym:") ++ f.1 ++ ";" ++ (if f.2.2 then "asc;" else "desc;"))
+
+/-- a `*StringSymbolNode` -/
+def isStrSym : TNode F → Bool
+  | strSym _ => true
+  | _ => false
+
+/-- `BinaryStringExprNode.IsSeekable()` (after df4edc3): `=` between a constant and a string-typed
+    symbol — the seek looks among the string keys of the bucket only -/
+def seekableStr (op : Op) (l r : TNode F) : Bool :=
+  op = .eq && ((isConst r && isStrSym l) || (isConst l && isStrSym r))
+
 def constShape : Const F → String
   | .str _ => "StrC;" | .int _ => "IntC;" | .float _ => "FloatC;"
 
@@ -158,9 +178,9 @@ def shape : TNode F → String
   | i2f w => "I2F(" ++ shape w ++ ")"
   | upper e => "Upper(" ++ shape e ++ ")"
   | count n => "Count:" ++ n ++ "()"
-  | countQ n q _ _ => "Count:" ++ n ++ "(" ++ shape q ++ ")"
+  | countQ n q so _ _ => "Count:" ++ n ++ "(" ++ shape q ++ sortShape so ++ ")"
   | isEmpty n => "IsEmpty:" ++ n ++ "()"
-  | isEmptyQ n q _ _ => "IsEmpty:" ++ n ++ "(" ++ shape q ++ ")"
+  | isEmptyQ n q so _ _ => "IsEmpty:" ++ n ++ "(" ++ shape q ++ sortShape so ++ ")"
   | setFn _ s => "SetFn(" ++ shape s ++ ")"
   | not e => "Not(" ++ shape e ++ ")"
   | and l r => "And(" ++ shape l ++ shape r ++ ")"
@@ -170,7 +190,7 @@ def shape : TNode F → String
   | binFloat _ l r => "BinFloat(" ++ shape l ++ shape r ++ ")"
   | binInt _ l r => "BinInt(" ++ shape l ++ shape r ++ ")"
   | binStr op l r =>
-    "BinStr" ++ (if op = .eq && (isConst l || isConst r) then "!" else "") ++ "(" ++ shape l ++ shape r ++ ")"
+    "BinStr" ++ (if seekableStr op l r then "!" else "") ++ "(" ++ shape l ++ shape r ++ ")"
   | isNil n _ => "IsNil(" ++ n ++ ")"
   | inStr l a => "InStr(" ++ shape l ++ "StrArr(" ++ String.join (a.map constShape) ++ "))"
   | inInt l a => "InInt(" ++ shape l ++ "IntArr(" ++ String.join (a.map fun _ => "IntC;") ++ "))"
